@@ -165,7 +165,7 @@ def check_case(case) -> Result:
         ("compressibility_DAK", G.compressibility_DAK, (T, p, tpc, ppc), [(T + 1e-3, p, tpc, ppc), (T, p, tpc, ppc * 1.0001), (T, 0.5 * p, tpc, ppc)]),
         ("b_factor_DAK", G.b_factor_DAK, (T, p, tpc, ppc), [(T, p, tpc, ppc, 59.0, 14.65), (T + 1e-3, p, tpc, ppc)]),
     ):
-        lib(name, history_independent, res, "C07/independent-of-call-history", fn, args, others, name)
+        lib(name, history_independent, res, "C07/independent-of-call-history", fn, args, others, name, 1e-10)
     c_lib, num, _c_var, _c_pub = lib("gas compressibility / density", _gas_consistency, g)
     if (tf, pf) != ("float", "float"):
         c_form = float(lib(f"compressibility_DAK(T as {tf}, p as {pf})", G.compressibility_DAK, Tg, pg, tpc, ppc))
